@@ -303,9 +303,10 @@ func main() {
 		for time.Now().Before(until) {
 			var slots []slot
 			fresh := (pi*1000 + round) * k // instance numbers never seen before: new contents, new keys
-			switch round % 3 {
-			case 0: // the same workload on every goroutine, own instances with different contents
-				wi := enabled[(round/3)%len(enabled)]
+			switch round % 4 {
+			case 0, 2: // the same workload on every goroutine, own instances with different contents
+				// each GOMAXPROCS segment starts at a different workload, so that a short run covers all of them
+				wi := enabled[(round/2+pi*((len(enabled)+len(procs)-1)/len(procs)))%len(enabled)]
 				for j := 0; j < k; j++ {
 					slots = append(slots, slot{wi, fresh + j})
 				}
